@@ -244,6 +244,28 @@ pub fn drive_fnnames() -> Vec<String> {
     fails
 }
 
+// ------------------------------------------------------------------------------------------------ displayed content re-entered (C18, C19)
+// a grid of typed texts in five language/locale pairs: what the editor shows for the cell, typed back into it, leaves type, value, format and content alone
+pub fn drive_entry() -> Vec<String> {
+    let mut fails = vec![];
+    let inputs = ["'123", "'TRUE", "'#VALUE!", "'=1+1", "''", "123", "12%", "$5", "5€", "2020-01-02", "1/2/2020", "TRUE", "true", "FALSE", "#N/A", "#VALUE!", "#DIV/0!", "#NAME?", "#REF!",
+                  " 12", "1,234", "1,234.5", "-$1.5", "0.1", ".5", "1E400", "=\"12\"", "=1/3", "'1,5", "00012", "+5", "12:30", "1/2", "€5", "'#REF!", "=TRUE", "'FALSE", "123,", "1,,234", "-$-5",
+                  "WAHR", "FALSCH", "VRAI", "FAUX", "VERDADERO", "FALSO", "VERO", "#¡VALOR!", "#WERT!", "#VALEUR!", "1.234,5", "1 234,5"];
+    for (loc, lang) in [("en", "en"), ("de", "de"), ("fr", "fr"), ("es", "es"), ("it", "it"), ("en", "de"), ("de", "en")] {
+        for f in inputs {
+            let Ok(mut m) = UserModel::new_empty("m", loc, "UTC", lang) else { fails.push(format!("no model {loc}/{lang}")); continue; };
+            if m.set_user_input(0, 1, 1, f).is_err() { continue; }
+            let get = |m: &UserModel| (format!("{:?}", m.get_cell_type(0, 1, 1)), m.get_formatted_cell_value(0, 1, 1).unwrap_or_default(),
+                                       m.get_cell_style(0, 1, 1).map(|s| s.num_fmt).unwrap_or_default(), m.get_cell_content(0, 1, 1).unwrap_or_default());
+            let a = get(&m);
+            if m.set_user_input(0, 1, 1, &a.3).is_err() { fails.push(format!("{loc}/{lang} typed {f:?}: the shown content {:?} is rejected", a.3)); continue; }
+            let b = get(&m);
+            if a != b { fails.push(format!("{loc}/{lang} typed {f:?}: {a:?} becomes {b:?} when the shown content is typed back")); }
+        }
+    }
+    fails
+}
+
 // ------------------------------------------------------------------------------------------------ parenthesisation (C09, C16)
 // every two-level combination of operators with explicit parentheses, in the display form (en and de) and the stored R1C1 form:
 // parse, print, parse again -> the SAME tree
@@ -676,6 +698,7 @@ pub fn run(driver: &str) -> Vec<String> {
         "errnames" => drive_errnames(),
         "fnnames" => drive_fnnames(),
         "parens" => drive_parens(),
+        "entry" => drive_entry(),
         "refshift" => drive_refshift(),
         "finite" => drive_finite(),
         "atomic" => drive_atomic(),
